@@ -62,9 +62,10 @@ Definition g_add (st : greedy) (x : ind) : bool * greedy :=
   | None => (true, {| g_best := Some x; g_sel := g_sel st |})
   end.
 
-(* individuals.into_iter().fold(false, |acc, individual| acc || self.add(individual)) : `||` short-circuits *)
+(* individuals.into_iter().fold(false, |acc, individual| self.add(individual) || acc) : every individual is offered to add
+   (before the fix 646d0ea the closure was `acc || self.add(individual)`, which short-circuits after the first accepted one) *)
 Definition g_add_all (st : greedy) (xs : list ind) : bool * greedy :=
-  fold_left (fun (a : bool * greedy) x => if fst a then a else g_add (snd a) x) xs (false, st).
+  fold_left (fun (a : bool * greedy) x => let r := g_add (snd a) x in (fst r || fst a, snd r)) xs (false, st).
 
 Definition g_ranked (st : greedy) : list ind := match g_best st with Some b => [b] | None => [] end.
 Definition g_select (st : greedy) : list ind := match g_best st with Some b => repeat b (g_sel st) | None => [] end.
@@ -218,26 +219,6 @@ Fixpoint offered (ops : list op) : list ind :=
   | OAddAll xs :: ops' => xs ++ offered ops'
   | _ :: ops' => offered ops'
   end.
-(* individuals offered singly (HeuristicPopulation::add, the way initial solutions arrive) *)
-Fixpoint offered_singly (ops : list op) : list ind :=
-  match ops with
-  | [] => []
-  | OAdd x :: ops' => x :: offered_singly ops'
-  | _ :: ops' => offered_singly ops'
-  end.
-(* for Greedy::add_all: the part of each batch up to and including the first accepted individual is looked at *)
-Definition batches_at_most_one (ops : list op) : Prop :=
-  Forall (fun o => match o with OAddAll xs => (length xs <= 1)%nat | _ => True end) ops.
-
-(* what Greedy::add_all is guaranteed to look at: the first individual of every batch (and every single add) *)
-Fixpoint offered_first (ops : list op) : list ind :=
-  match ops with
-  | [] => []
-  | OAdd x :: ops' => x :: offered_first ops'
-  | OAddAll (x :: _) :: ops' => x :: offered_first ops'
-  | _ :: ops' => offered_first ops'
-  end.
-
 Definition selection_size (p : pop) : nat :=
   match p with PG g => g_sel g | PE e => e_sel e | PR r => c_sel (r_cfg r) end.
 Definition is_greedy (p : pop) : bool := match p with PG _ => true | _ => false end.
